@@ -19,6 +19,7 @@ for d in cmd/*/; do
     echo "WARN: cmd/$n does not build (see harness/bin/$n.buildlog)"; rc=0
   fi
 done
+./build_c20caps.sh /repo "$PWD/bin/c20caps" "$PWD/bin/overlay"
 # the C18 data-race pass needs a binary built with -race (cold build takes minutes: do it here)
 go build "${OVL[@]}" -race -tags verif -o bin/c18race ./cmd/c18 2> bin/c18race.buildlog || echo "WARN: c18race does not build"
 echo setup ok
